@@ -64,10 +64,34 @@ def both_spellings(ctx, ast, doc, extra, cls, n=2):
                 ctx.violation("alias-differs-from-standard:%s" % cls, {"class": cls, "ast": ast, "doc": doc, "extra": extra, "text": t_alias, "std": t_std}, {"std": t_std, "alias": t_alias})
 
 
+def run_non_string_keys(ctx):
+    """`in` / `contains` against objects held as Python mappings whose keys are numbers (a stock table keyed by article
+    number, positions keyed by index): membership in an object's keys is what the documentation promises, and the
+    current-key identifier yields exactly such keys. Expectations are written out by hand; a replay file cannot hold
+    such documents, so the class is replayed as a whole."""
+    import jsonpath
+
+    doc = {"stock": {10: "a", 20: "b", 2.5: "c"}, "orders": [{"sku": 10}, {"sku": 30}, {"sku": 2.5}, {"sku": "10"}], "list": ["x", "y", "z"]}
+    fctx = {"wanted": {10: 1}, "pos": {0: True, 2: True}}
+    for text, want in (("$.orders[?@.sku in $.stock]", [{"sku": 10}, {"sku": 2.5}]), ("$.orders[?$.stock contains @.sku]", [{"sku": 10}, {"sku": 2.5}]), ("$.orders[?!(@.sku in $.stock)]", [{"sku": 30}, {"sku": "10"}]),
+                       ("$.stock[?# in $.stock]", ["a", "b", "c"]), ("$.orders[?@.sku in _.wanted]", [{"sku": 10}]), ("$.list[?# in _.pos]", ["x", "z"]), ("$.orders[?@.sku in $.stock and not (@.sku in _.wanted)]", [{"sku": 2.5}]),
+                       ("$.orders[?@ in $.stock]", []), ("$..[?@.sku in $.stock].sku", [10, 2.5]), ("$.list[?_.pos contains #]", ["x", "z"])):
+        for e_name, fn in (("findall", lambda: jsonpath.findall(text, doc, filter_context=fctx)), ("compiled.finditer", lambda: [m.obj for m in jsonpath.compile(text).finditer(doc, filter_context=fctx)]),
+                           ("caching off", lambda: jsonpath.JSONPathEnvironment(filter_caching=False).findall(text, doc, filter_context=fctx))):
+            o = impl.call(fn)
+            ctx.evaluation()
+            ctx.count("membership_tests_against_objects_with_number_keys")
+            if not o.ok or o.value != want or [type(x) for x in o.value] != [type(x) for x in want]:
+                ctx.violation("membership-in-an-object's-keys-wrong-for-keys-that-are-numbers", {"non_string_keys": True}, {"text": text, "entry_point": e_name, "got": o.desc() if not o.ok else repr(o.value), "expected": repr(want)})
+                return
+
+
 def run(spec, ctx):
     install()
     r = ctx.rng
     extra = gen.CTX_DEFAULT
+    if spec["kind"] == "directed":
+        run_non_string_keys(ctx)
     if spec["kind"] == "directed":
         def Q(root, *sels, typ="child"):
             return ["q", root, [[typ, [s]] for s in sels]]
@@ -257,6 +281,9 @@ def replay(case, ctx):
     if case.get("in_place"):
         for _ in range(10):
             check_after_incomplete_passes(ctx, case["ast"], case["text"], case["doc"], case.get("extra"), case.get("class", "replay"), pool=list(gen.MEM_LEAVES) + [[], {}, ["a"], {"a": 2}])
+        return
+    if case.get("non_string_keys"):
+        run_non_string_keys(ctx)
         return
     if case.get("interleaved"):
         check_interleaved(ctx, case["ast"], case["text"], [tuple(x) for x in case["runs"]], case.get("class", "replay"))
